@@ -123,7 +123,7 @@ PROPS = {
              'expression text reaches a back-end without evaluation; _to_literal suffix rule; names resolve through the '
              'same tables including includes.',
              'arithmetic results for all expressions',
-             'operator-ladder/table agreement, integer-closure typing of BinOps, taint from XML attributes to emitted text'),
+             'operator-ladder/table agreement, integer-closure typing of BinOps, taint from XML attributes to emitted text', claimed=True),
     'C15': P('definition order does not matter',
              'topological_sort only permutes (insert/pop pairs); dependencies() of each node class cover every identifier '
              'the Python generator emits for it; the separator alphabet of Constant.dependencies covers the operator '
